@@ -83,6 +83,8 @@ func runTraffic(t *testing.T, c *rt.Case, rng *rand.Rand, o trafficOpts) *GWRun 
 	if o.Overlap {
 		bcfg.AckDelay = []time.Duration{0, time.Millisecond, time.Second}[rng.Intn(3)]
 		bcfg.PingrespDelay = bcfg.AckDelay
+		// the broker's packet identifiers run through the same small numbers as the client's message IDs
+		bcfg.FirstID = uint16([]int{30000, 2, 3, 5}[rng.Intn(4)])
 	}
 	g := &GWRun{Cfg: cfg, BCfg: bcfg, NSess: 1}
 	pre := toPredef(o.Predef)
@@ -188,7 +190,7 @@ func runTraffic(t *testing.T, c *rt.Case, rng *rand.Rand, o trafficOpts) *GWRun 
 			case r < 6:
 				return 1, uint16(1 + rng.Intn(6))
 			case r < 8:
-				n := []string{"ab", "cd", "zz", "a/"}[rng.Intn(4)]
+				n := []string{"ab", "cd", "zz", "a/", "\u00e9"}[rng.Intn(5)]
 				return 2, snref.ShortID(n)
 			case o.Hostile && rng.Intn(3) == 0:
 				// short names with a wildcard character in them
@@ -219,7 +221,7 @@ func runTraffic(t *testing.T, c *rt.Case, rng *rand.Rand, o trafficOpts) *GWRun 
 				case 0:
 					send(snref.SubscribeName(nextMid(), q, []string{"a/#", "+/b", "#", "a/+"}[rng.Intn(4)]))
 				case 1:
-					send(snref.SubscribeID(nextMid(), q, 2, snref.ShortID([]string{"ab", "cd"}[rng.Intn(2)])))
+					send(snref.SubscribeID(nextMid(), q, 2, snref.ShortID([]string{"ab", "cd", "\u00e9", "a/"}[rng.Intn(4)])))
 				case 2:
 					send(snref.SubscribeID(nextMid(), q, 1, uint16(1+rng.Intn(4))))
 				default:
@@ -233,7 +235,7 @@ func runTraffic(t *testing.T, c *rt.Case, rng *rand.Rand, o trafficOpts) *GWRun 
 				case 0:
 					send(snref.UnsubscribeName(nextMid(), pickName()))
 				case 1:
-					send(snref.UnsubscribeID(nextMid(), 2, snref.ShortID("ab")))
+					send(snref.UnsubscribeID(nextMid(), 2, snref.ShortID([]string{"ab", "\u00e9"}[rng.Intn(2)])))
 				default:
 					send(snref.UnsubscribeID(nextMid(), 1, uint16(1+rng.Intn(3))))
 				}
@@ -380,6 +382,13 @@ var wlSubscribeOverlap = Workload{
 			if tid != 0 {
 				mid++
 				send(snref.Publish(0, tid, mid, 1, false, false, []byte(fmt.Sprintf("c%d-up|", c.I))))
+				synctest.Wait()
+			}
+			if tid == 0 {
+				// every request was refused: the TopicID the gateway had set aside (the first free one: 1-3 are
+				// predefined) denotes nothing, a PUBLISH with it must not reach the broker (it may end the session)
+				mid++
+				send(snref.Publish(0, 4, mid, 0, false, false, []byte(fmt.Sprintf("c%d-probe|", c.I))))
 				synctest.Wait()
 			}
 			say("broker publishes on %q", name)
